@@ -744,7 +744,21 @@ func (fc *fsCtx) ruleAtomicCreateDir2(r *Report, dir *fsImpl, full bool) {
 				uniq = true
 			}
 		}
-		if !uniq {
+		// a counter makes names unique only if all calls share it: its address must not lie in a local
+		// copy (a field of a value receiver is incremented on the copy and is 1 on every call)
+		for _, e := range ip.Events {
+			if !strings.HasPrefix(e.Callee, "sync/atomic.Add") && !(strings.HasPrefix(e.Callee, "(*sync/atomic.") && strings.HasSuffix(e.Callee, ").Add")) {
+				continue
+			}
+			if e.Key == "" || !strings.Contains(stage, e.Key) {
+				continue
+			}
+			if ci, ok := e.In.(ssa.CallInstruction); ok && len(ci.Common().Args) > 0 && !sharedAddr(ci.Common().Args[0]) {
+				uniq = false
+				badUniq = fmt.Sprintf("the counter %s that makes the staging path unique lives in a local copy (value receiver or local variable): every call increments its own copy, so concurrent calls for one name share the temporary file", e.Args[0])
+			}
+		}
+		if !uniq && badUniq == "" {
 			badUniq = fmt.Sprintf("the staging path %s has no per-call fresh component and is opened without O_EXCL: concurrent calls that agree on it (the same name) write through one shared temporary file", stage)
 		}
 	}
@@ -978,4 +992,29 @@ func (fc *fsCtx) ruleAtomicCreateMem2(r *Report, mem *fsImpl) {
 	}
 	r.Check("R13e", mem.Name+".AtomicCreate one contents and one directory update", f.Pos(), nC == 1 && nD == 1,
 		fmt.Sprintf("found %d contents updates and %d directory updates reachable from AtomicCreate", nC, nD))
+}
+
+// sharedAddr: the address is a package-level variable or is reached through a pointer that the function
+// received (parameter, captured variable, global) — not a location inside a local (per-call) variable.
+func sharedAddr(v ssa.Value) bool {
+	for depth := 0; depth < 10; depth++ {
+		switch x := v.(type) {
+		case *ssa.Global:
+			return true
+		case *ssa.FieldAddr:
+			v = x.X
+		case *ssa.IndexAddr:
+			v = x.X
+		case *ssa.Parameter, *ssa.FreeVar:
+			_, isPtr := x.Type().Underlying().(*types.Pointer)
+			return isPtr
+		case *ssa.UnOp: // a loaded pointer: shared as far as this function can tell
+			return x.Op == token.MUL
+		case *ssa.Alloc:
+			return false
+		default:
+			return false
+		}
+	}
+	return false
 }
